@@ -55,7 +55,7 @@ class UFMath:
         return g
 
 
-MATH_MODULES = ["a5.math.vec3", "a5.math.vec2", "a5.math.quat", "a5.geometry.spherical_polygon", "a5.geometry.pentagon",
+MATH_MODULES = ["a5.core.cell", "a5.core.origin", "a5.core.tiling", "a5.projections.crs", "a5.math.vec3", "a5.math.vec2", "a5.math.quat", "a5.geometry.spherical_polygon", "a5.geometry.pentagon",
                 "a5.projections.polyhedral", "a5.projections.gnomonic", "a5.projections.dodecahedron",
                 "a5.core.coordinate_transforms", "a5.projections.authalic"]
 
